@@ -524,6 +524,19 @@ def bqOptSpace (rest : List Char) (indAfter : Nat) : Except Panic Nat :=
   | d :: _ => if isBlank d then psub indAfter 1 else pure indAfter
   | [] => pure indAfter
 
+/-- the arm `Some('>') if !is_outdented` up to the two assignments to `state.line_offsets[next_line]`:
+    the rewritten entry of a line inside the quote ("set offset past spaces and `>`"), and
+    `last_line_empty`.  `rest` = the line's text behind the `>`. -/
+def bqRewrite (src : List Char) (o : LineOffset) (rest : List Char) : Except Panic (LineOffset × Bool) := do
+  let posAfterMarker := o.firstNonspace + 1
+  let ltxt ← liftL (Lines.slice src o.lineStart o.lineEnd)
+  let rel ← psub posAfterMarker o.lineStart
+  let (indAfter, fn) ← liftL (Lines.findIndentOf ltxt rel)
+  let lineLen ← psub o.lineEnd o.lineStart
+  let lastEmpty : Bool := fn == lineLen
+  let indAfter ← bqOptSpace rest indAfter
+  pure ({ o with indentNonspace := (indAfter : Int), firstNonspace := fn + o.lineStart }, lastEmpty)
+
 /-- `while next_line < state.line_max { … }`: result `(next_line, old_line_offsets, state)` -/
 def bqScan (test : Test) :
     Nat → BState → Nat → List LineOffset → Bool → Except Panic (Nat × List LineOffset × BState)
@@ -538,15 +551,8 @@ def bqScan (test : Test) :
     | c :: rest =>
       if c = '>' ∧ ¬ isOutdented then do
         let o ← s.off nextLine
-        let posAfterMarker := o.firstNonspace + 1
-        let ltxt ← liftL (Lines.slice s.src o.lineStart o.lineEnd)
-        let rel ← psub posAfterMarker o.lineStart
-        let (indAfter, fn) ← liftL (Lines.findIndentOf ltxt rel)
-        let lineLen ← psub o.lineEnd o.lineStart
-        let lastEmpty : Bool := fn == lineLen
-        let indAfter ← bqOptSpace rest indAfter
-        let s ← s.setOff nextLine
-          { o with indentNonspace := (indAfter : Int), firstNonspace := fn + o.lineStart }
+        let (o', lastEmpty) ← bqRewrite s.src o rest
+        let s ← s.setOff nextLine o'
         bqScan test fuel s (nextLine + 1) (old ++ [o]) lastEmpty
       else
         if lastEmpty then .ok (nextLine, old, s) else do
@@ -665,15 +671,15 @@ def prevEmptyEndOf (s : BState) (nextLine : Nat) : Except Panic Bool := do
     pure (s.isEmpty l1)
   else pure false
 
-/-- the first half of one iteration of the item loop: one list item, from
-    `let offsets = &state.line_offsets[next_line]` to `state.node.children.push(node)`;
-    result `(state, tight, prev_empty_end)` -/
-def listItem (tok : Tok) (s : BState) (nextLine posAfterMarker : Nat) (prevEmptyEnd tight : Bool) :
-    Except Panic (BState × Bool × Bool) := do
-  let o ← s.off nextLine
+/-- the head of an iteration of the item loop, up to the two assignments to
+    `state.line_offsets[next_line]`: the rewritten entry of the item's first line (`first_nonspace` and
+    `indent_nonspace` behind the marker), the item's content indent `indent` (the new `blk_indent`)
+    and `reached_end_of_line` -/
+def itemRewrite (src : List Char) (o : LineOffset) (posAfterMarker : Nat) :
+    Except Panic (LineOffset × Nat × Bool) :=
   if o.indentNonspace < 0 then .error .cast else do
   let initial := o.indentNonspace.toNat + posAfterMarker
-  let ltxt ← liftL (Lines.slice s.src o.lineStart o.lineEnd)
+  let ltxt ← liftL (Lines.slice src o.lineStart o.lineEnd)
   let rel ← psub (posAfterMarker + o.firstNonspace) o.lineStart
   let (indAfter0, fn) ← liftL (Lines.findIndentOf ltxt rel)
   let lineLen ← psub o.lineEnd o.lineStart
@@ -681,14 +687,23 @@ def listItem (tok : Tok) (s : BState) (nextLine posAfterMarker : Nat) (prevEmpty
   let indentNonspace := initial + indAfter0
   let indAfter := if reachedEnd then 1 else if indAfter0 > 4 then 1 else indAfter0
   let indent := initial + indAfter
+  pure ({ o with firstNonspace := fn + o.lineStart, indentNonspace := (indentNonspace : Int) },
+        indent, reachedEnd)
+
+/-- the first half of one iteration of the item loop: one list item, from
+    `let offsets = &state.line_offsets[next_line]` to `state.node.children.push(node)`;
+    result `(state, tight, prev_empty_end)` -/
+def listItem (tok : Tok) (s : BState) (nextLine posAfterMarker : Nat) (prevEmptyEnd tight : Bool) :
+    Except Panic (BState × Bool × Bool) := do
+  let o ← s.off nextLine
+  let (o', indent, reachedEnd) ← itemRewrite s.src o posAfterMarker
   let oldKind := s.nodeKind
   let oldChildren := s.children
   let oldTight := s.tight
   let oldListIndent := s.listIndent
   let s := { s with nodeKind := .listItem, children := [], listIndent := some s.blkIndent,
                     blkIndent := indent, tight := true }
-  let s ← s.setOff nextLine
-    { o with firstNonspace := fn + o.lineStart, indentNonspace := (indentNonspace : Int) }
+  let s ← s.setOff nextLine o'
   let s ← listItemBody tok s nextLine reachedEnd
   let tight := if ¬ s.tight ∨ prevEmptyEnd then false else tight
   let prevEmptyEnd ← prevEmptyEndOf s nextLine
